@@ -1083,6 +1083,30 @@ func runC15(prop, tier string) int {
 			if pr != "absent" {
 				os.WriteFile(outAbs, content, 0o644)
 			}
+			// the same file and the same source directory under other spellings
+			rmArgs := rmArgs
+			spelling := "as-is"
+			switch (pi + i) % 4 {
+			case 1:
+				spelling = "absolute-out"
+				rmArgs = append([]string{"-rm", "-out", outAbs}, c.Args()...)
+			case 2:
+				spelling = "dotdot-out"
+				if c.CwdRoot {
+					rmArgs = append([]string{"-rm", "-out", "./" + outRel}, c.Args()...)
+				} else {
+					rmArgs = append([]string{"-rm", "-out", "../" + filepath.Base(j.t.SrcDir) + "/" + outName}, c.Args()...)
+				}
+			case 3:
+				spelling = "absolute-source-dir"
+				rmArgs = append([]string{}, rmArgs...)
+				for ai, a := range rmArgs {
+					if (a == "." && !c.CwdRoot) || (a == "./"+j.t.SrcDir && c.CwdRoot) {
+						rmArgs[ai] = filepath.Join(root, j.t.SrcDir)
+					}
+				}
+			}
+			run.Add("rm_runs_spelling_"+spelling, 1)
 			var res runner.Result
 			var order []string
 			traced := (tier == "thorough" && (i+pi)%2 == 0) || (i+pi)%5 == 0
